@@ -94,7 +94,7 @@ def permutation(rep, tier, timeout):
                     nominal["%s_def_mesh[%s]" % (s_["name"], ",".join(map(str, idx)))] = float(mvn[idx])
                 nominal.update({"gamma_%s[%d]" % (s_["name"], i): -0.7 - 0.1 * i for i in range(npan_of[s_["name"]])})
             run_obligations(rep, "surface order %s" % lab, obs, timeout, family=lambda ob: "surface list: " + ob.meta["family"], levels=(1,),
-                            replay=rp, nominal=nominal, fixed={"alpha": 3.0, "beta": 2.0, "v": 10.0, "rho": 1.1})
+                            replay=rp, nominal=nominal, fixed={"alpha": (3.0, -3.0), "beta": (2.0, -2.0), "v": 10.0, "rho": 1.1})
 
 
 def split(rep, tier, timeout):
@@ -154,7 +154,7 @@ def split(rep, tier, timeout):
             nominal["whole_def_mesh[%s]" % ",".join(map(str, idx))] = float(mvn[idx])
         nominal.update({"circulations[%d]" % i: -0.7 - 0.1 * i for i in range(npan)})
         run_obligations(rep, "split %dx%d at station %d" % (nx, ny, k), obs, timeout, family=lambda ob: "split: " + ob.meta["family"], levels=(1,),
-                        replay=rps, nominal=nominal, fixed={"alpha": 3.0, "beta": 2.0, "v": 10.0, "rho": 1.1})
+                        replay=rps, nominal=nominal, fixed={"alpha": (3.0, -3.0), "beta": (2.0, -2.0), "v": 10.0, "rho": 1.1})
 
 
 def mphys_groups(rep, tier, timeout):
